@@ -87,7 +87,6 @@ pub fn graph_to_paths(graph: &Graph) -> Vec<NodePath> {
         .filter(|path| !path.ids.is_empty())
         .filter(|path| {
             graph
-                .index
                 .get_block_references_to(&graph.node_key(path.first_id()))
                 .is_empty()
                 && graph
